@@ -845,6 +845,7 @@ func (r *rpRun) loadCancelled(b Behaviour, idx int, want []int) {
 	addr := r.a.Addr
 	// the replica writes a chain of its own on top of what it holds: below the newest entry there is one path only
 	want = append([]int{}, want...)
+	var newest ipfslog.Entry
 	for i := 1; i <= 5; i++ {
 		op, err := r.a.S.(orbitdb.KeyValueStore).Put(context.Background(), fmt.Sprintf("c%d", i), []byte("x"))
 		if err != nil {
@@ -853,6 +854,7 @@ func (r *rpRun) loadCancelled(b Behaviour, idx int, want []int) {
 		}
 		r.ids[op.GetEntry().GetHash().String()] = 100 + i
 		want = append(want, 100+i)
+		newest = op.GetEntry()
 	}
 	if err := sim.Settle(6*time.Second, r.nodes["a"]); err != nil {
 		r.res.Inconclusive = append(r.res.Inconclusive, b.ID+": "+err.Error())
@@ -897,7 +899,25 @@ func (r *rpRun) loadCancelled(b Behaviour, idx int, want []int) {
 		return
 	}
 	r.res.note("%s: Load given up after %d of the block reads: log %v", b.ID, passed, r.logIDs())
-	if err := ref.S.Load(context.Background(), -1); err != nil {
+	viaSync := idx%2 == 1
+	if viaSync {
+		// the later request is a sync of the same head (announced again by a peer that holds the log): exactly as if the
+		// load that was given up had never been made, it brings everything below that head
+		for _, nd := range []*sim.Node{r.nodes["b"], r.nodes["c"]} {
+			if nd != nil {
+				for _, c := range pa.BlockCids() {
+					if raw, ok := pa.RawBlock(c); ok {
+						nd.P.PutBlock(c, raw)
+					}
+				}
+			}
+		}
+		if err := ref.S.Sync(context.Background(), []ipfslog.Entry{copyEntry(newest)}); err != nil {
+			r.violate("wedged", "a Sync after a Load that was given up fails: "+err.Error(), nil, nil)
+			return
+		}
+		r.res.Stats["loads_given_up_then_sync"]++
+	} else if err := ref.S.Load(context.Background(), -1); err != nil {
 		r.violate("wedged", "a Load after a Load that was given up fails: "+err.Error(), nil, nil)
 		return
 	}
@@ -910,7 +930,7 @@ func (r *rpRun) loadCancelled(b Behaviour, idx int, want []int) {
 	got := r.logIDs()
 	for _, id := range want {
 		if !contains(got, id) {
-			r.violate("missing", fmt.Sprintf("entry %d is not visible after a Load that was given up after %d block reads followed by a complete Load", id, passed), want, got)
+			r.violate("missing", fmt.Sprintf("entry %d is not visible after a Load that was given up after %d block reads followed by a complete %s", id, passed, map[bool]string{false: "Load", true: "Sync of the same head"}[viaSync]), want, got)
 			break
 		}
 	}
